@@ -115,6 +115,9 @@ def go_transcript(fen_cmd, go_cmd, env=None, timeout=60.0, prefix=(), preexec=No
     try:
         for ln in prefix:
             e.send(ln)
+            if ln.startswith("go"):
+                e.read_until(lambda l: l.startswith("bestmove"), timeout)
+        e.isready(timeout)
         e.send(fen_cmd)
         e.send(go_cmd)
         lines, ok = e.read_until(lambda l: l.startswith("bestmove"), timeout)
